@@ -378,6 +378,18 @@ for _fam in _FUNC_FAMILIES:
         _SIBLINGS["()" + _m] += [x for x in _fam if x != _m]
 
 
+# keyword arguments a call of that name may also carry: an idiom recognised by its positional shape must either reject
+# the call or hand the keyword on to a replacement that accepts it (at the target version)
+_KW_POOL = {
+    "open": [("newline", "''"), ("encoding", "'utf-8'"), ("errors", "'ignore'"), ("buffering", "1")], "sorted": [("reverse", "True"), ("key", "abs")],
+    "print": [("sep", "''"), ("end", "''"), ("flush", "True")], "min": [("default", "0"), ("key", "abs")], "max": [("default", "0"), ("key", "abs")],
+    "sum": [("start", "0")], "enumerate": [("start", "1")], "zip": [("strict", "True")], "int": [("base", "10")], "round": [("ndigits", "0")],
+    "sort": [("reverse", "True"), ("key", "abs")], "split": [("maxsplit", "1")], "mkdir": [("parents", "True"), ("exist_ok", "True")],
+    "read_text": [("encoding", "'utf-8'")], "write_text": [("encoding", "'utf-8'")], "lru_cache": [("typed", "True")], "startswith": [], "log": [],
+    "fromisoformat": [], "run": [("check", "True")], "hexdigest": [], "copy": [], "isinstance": [], "bool": [], "str": [("encoding", "'utf-8'")], "bytes": [("encoding", "'utf-8'")],
+}
+
+
 def _alts(n: ast.AST) -> list[ast.AST]:
     """Single-site edits of an idiom: the shapes next to the documented one, which a check's guard
     either rejects (nothing to verify) or accepts (then its advice must hold for them too)."""
@@ -427,6 +439,14 @@ def _alts(n: ast.AST) -> list[ast.AST]:
             else:
                 m = c(n)
                 setattr(m, part, None)
+                out.append(m)
+    if isinstance(n, ast.Call):
+        fname = n.func.id if isinstance(n.func, ast.Name) else n.func.attr if isinstance(n.func, ast.Attribute) else None
+        have = {k.arg for k in n.keywords}
+        for kw, val in _KW_POOL.get(fname, []):
+            if kw not in have:
+                m = c(n)
+                m.keywords = m.keywords + [ast.keyword(arg=kw, value=ast.parse(val, mode="eval").body)]
                 out.append(m)
     if isinstance(n, ast.Attribute) and isinstance(n.ctx, ast.Load) and n.attr in _SIBLINGS:
         for alt in _SIBLINGS[n.attr]:
